@@ -672,7 +672,14 @@ func (c C17Case) scanArgv(cursor string) []string {
 		opts = append(opts, []string{"COUNT", strconv.Itoa(c.Count)})
 	}
 	if c.Kind == "keys" && c.Type != "" {
-		opts = append(opts, []string{"TYPE", c.Type})
+		ty := c.Type
+		switch c.Perm % 3 { // the type name is matched without regard to case
+		case 1:
+			ty = strings.ToUpper(ty)
+		case 2:
+			ty = strings.ToUpper(ty[:1]) + ty[1:]
+		}
+		opts = append(opts, []string{"TYPE", ty})
 	}
 	// option order: rotate / reverse according to Perm
 	if len(opts) > 1 {
